@@ -9,7 +9,7 @@ from mc import evidence, explore, harness as H, par, peer as P, report
 PID = 'C12'
 ALL_SIZES = [512, 768, 1024, 1536, 2048, 3072, 4096, 6144, 8192]
 QUICK_SIZES = [1024, 1536, 2048, 3072, 4096]
-STYLES = (P.STRICT, P.ROUNDUP, P.OPENSSH, P.LENIENT)      # lenient = RFC 4419 section 3 read literally (min/max not enforced)
+STYLES = (P.STRICT, P.ROUNDUP, P.OPENSSH, P.LENIENT, P.PREFER)      # lenient = RFC 4419 section 3 read literally (min/max not enforced)
 LARGE_SETS = [(6144,), (8192,), (6144, 8192), (2048, 6144), (2048, 8192), (1024, 6144), (3072, 8192), (4096, 6144)]
 SHA1, SHA256 = 'diffie-hellman-group-exchange-sha1', 'diffie-hellman-group-exchange-sha256'
 OFFERS = {'sha1': [SHA1], 'sha256': [SHA256], 'both': [SHA256, SHA1]}
@@ -225,7 +225,7 @@ def work(chunk, st):
             st.sample(dict(detail, requests=[r['gex_requests'] for r in srv.records if r['gex_requests']][:10]))
 
 
-FAULT_SERVERS = (((1024, 2048, 4096), P.STRICT, 'other'), ((2048, 3072), P.OPENSSH, 'openssh'), ((3072,), P.ROUNDUP, 'other'),
+FAULT_SERVERS = (((768, 1024, 2048), P.PREFER, 'other'), ((1024, 2048, 4096), P.STRICT, 'other'), ((2048, 3072), P.OPENSSH, 'openssh'), ((3072,), P.ROUNDUP, 'other'),
                  ((3072, 4096), P.OPENSSH, 'openssh'), ((4096,), P.OPENSSH, 'other'), ((1024,), P.OPENSSH, 'openssh'))
 
 
@@ -246,7 +246,95 @@ def fault_tasks(tier):
     return out
 
 
+def model_audit(srv_gex, banner, lost=None):
+    """Both algorithms in the tool's order (sha1, then sha256).  lost = (algorithm, index of the probe in that algorithm's sequence, kind):
+    'exchange' = the connection is set up but no usable group arrives; 'setup' = the connection itself cannot be set up (refused, no
+    banner, no KEXINIT), which also ends the whole test when it hits the first or the last probe of an algorithm's fixed-size run.
+    -> {algorithm: (number of probe connections, size or None)}"""
+    out, stopped = {}, False
+    for alg in (SHA1, SHA256):
+        gexp = srv_gex.get(alg) if isinstance(srv_gex, dict) else srv_gex
+        if stopped:
+            out[alg] = (0, None)
+            continue
+        n = [0]
+
+        def ask(mn, pref, mx):
+            i = n[0]
+            n[0] += 1
+            if lost is not None and lost[0] == alg and lost[1] == i:
+                return None, lost[2] == 'setup'
+            r = gexp.choose(mn, pref, mx) if gexp else None
+            return (r or None), False
+        r, rf = ask(512, 1024, 1536)
+        if rf:
+            out[alg] = (n[0], None)
+            stopped = True
+            continue
+        smallest = r if r else -1
+        rf = False
+        for bits in (512, 768, 1024, 1536, 2048, 3072, 4096):
+            if bits >= smallest > 0:
+                break
+            r, rf = ask(bits, bits, bits)
+            if r and (smallest <= 0 or r < smallest):
+                smallest = r
+        if smallest == 2048 and banner in ('openssh', 'openssh-windows', 'openssh-bare'):
+            r, _ = ask(2048, 3072, 4096)
+            smallest = r if r else -1
+        out[alg] = (n[0], smallest if smallest > 0 else None)
+        if rf:
+            stopped = True
+    return out
+
+
+_BASE = {}
+
+
+def _baseline(sub, style, banner):
+    k = (sub, style, banner)
+    if k not in _BASE:
+        srv = make_server(sub, style, 'both', banner)
+        H.audit(srv)
+        conn_alg = {}
+        for r in srv.records:
+            reqs = [tuple(q[:3]) for q in r['gex_requests']]
+            conn_alg[r['index']] = r.get('negotiated', (None,))[0] if reqs and (1024, 2048, 8192) not in reqs else None
+        _BASE[k] = (conn_alg, len(srv.records))
+    return _BASE[k]
+
+
 def work_faults(chunk, st):
+    for sub, style, banner, plan in chunk:
+        # a fault that costs exactly one probe: everything else is measured as the fixed sequence gives with that one probe lost
+        (fkey, fault) = plan[0]
+        fconn, fmsg, fk = fkey[1], fkey[2], fault[0]
+        conn_alg, nbase = _baseline(sub, style, banner)
+        lost_kind = None
+        if conn_alg.get(fconn):
+            if fmsg == -1 or (fmsg <= 1 and fk in ('trunc_close', 'trunc_stall', 'reset', 'garbage')):
+                lost_kind = 'setup'
+            elif fmsg == 2 and (fk in ('trunc_close', 'trunc_stall', 'reset', 'garbage') or fk == 'type'):
+                lost_kind = 'exchange'
+        if lost_kind:
+            alg = conn_alg[fconn]
+            k = len([i for i in conn_alg if conn_alg[i] == alg and i < fconn])
+            srvm = make_server(sub, style, 'both', banner)
+            resm = H.audit(srvm, faults={tuple(fkey): tuple(fault)})
+            want = model_audit(srvm.gex, banner, (alg, k, lost_kind))
+            free = model_audit(srvm.gex, banner)
+            if resm.status in (0, 2, 3) and not resm.hang:
+                repm = report.TextReport(resm.stdout)
+                dm = {'moduli': list(sub), 'style': style, 'banner': banner, 'plan': plan, 'lost_probe': [alg, k, lost_kind]}
+                for a in (SHA1, SHA256):
+                    e = next((x for x in repm.algs['kex'] if x['name'] == a), None)
+                    got = e['size'] if e else None
+                    if got != want[a][1]:
+                        st.violation('gexfault:one-lost-probe:size-differs:%s' % lost_kind, dict(dm, alg=a, reported=got, expected=want[a][1]))
+                nconn = len(resm.world.conns)
+                want_conn = nbase - sum(v[0] for v in free.values()) + sum(v[0] for v in want.values())
+                if nconn != want_conn:
+                    st.violation('gexfault:one-lost-probe:probe-connections-differ:%s' % lost_kind, dict(dm, connections=nconn, expected=want_conn))
     for sub, style, banner, plan in chunk:
         srv = make_server(sub, style, 'both', banner)
         faults = {tuple(k): tuple(f) for k, f in plan}
